@@ -63,6 +63,8 @@ def check(ctx):
     ctx.rule("C03-R4", "join concatenates xyz, time, unitcell_lengths, unitcell_angles over one list, dominated by the "
                        "atom-count and unit-cell-presence raises; stack hstacks (self.xyz, other.xyz) behind the frame-count raise")
     ctx.rule("C03-R6", "a method with an `inplace` parameter returns `self` only on paths where inplace is true")
+    from .c05 import flag_identity
+    flag_identity(ctx, "C03-R6", [TRAJ], name_filter=lambda q: q.startswith("Trajectory.") and q.count(".") == 1, floor=10)
     r6_inplace_returns(ctx)
     ctx.rule("C03-R5", "public analysis and save functions never store into their trajectory argument nor pass an alias of "
                        "its arrays to a parameter that a callee (Python, Cython or C via non-const pointer) writes")
